@@ -241,15 +241,14 @@ impl<'a> CompilerState<'a> {
 
     pub fn syntax_error(&self, message: &str, loc: usize) -> Error {
         let mut line_number: usize = 0;
-        let mut char_number = 0;
-        for c in self.preprocessed_utf8.chars() {
-            if char_number == loc {
+        // loc is a byte offset (text outside the ASCII range may come from included assembler files)
+        for (offset, c) in self.preprocessed_utf8.char_indices() {
+            if offset >= loc {
                 break;
             }
             if c == '\n' {
                 line_number += 1;
             }
-            char_number += 1;
         }
         let included_in = self.mapped_lines[line_number]
             .2
@@ -265,15 +264,14 @@ impl<'a> CompilerState<'a> {
 
     pub fn compiler_error(&self, message: &str, loc: usize) -> Error {
         let mut line_number: usize = 0;
-        let mut char_number = 0;
-        for c in self.preprocessed_utf8.chars() {
-            if char_number == loc {
+        // loc is a byte offset (text outside the ASCII range may come from included assembler files)
+        for (offset, c) in self.preprocessed_utf8.char_indices() {
+            if offset >= loc {
                 break;
             }
             if c == '\n' {
                 line_number += 1;
             }
-            char_number += 1;
         }
         let included_in = self.mapped_lines[line_number]
             .2
@@ -289,15 +287,14 @@ impl<'a> CompilerState<'a> {
 
     pub fn warning(&self, msg: &str, loc: usize) -> () {
         let mut line_number: usize = 0;
-        let mut char_number = 0;
-        for c in self.preprocessed_utf8.chars() {
-            if char_number == loc {
+        // loc is a byte offset (text outside the ASCII range may come from included assembler files)
+        for (offset, c) in self.preprocessed_utf8.char_indices() {
+            if offset >= loc {
                 break;
             }
             if c == '\n' {
                 line_number += 1;
             }
-            char_number += 1;
         }
         let included_in = self.mapped_lines[line_number]
             .2
